@@ -205,9 +205,11 @@ func pruneBuilds(root, keep string) {
 			ds = append(ds, e{en.Name(), info.ModTime()})
 		}
 	}
+	// keep the five newest other builds, and never remove one used in the last hour (a check
+	// running concurrently on another tree state may still be executing its binaries).
 	sort.Slice(ds, func(i, j int) bool { return ds[i].t.After(ds[j].t) })
 	for i, d := range ds {
-		if i >= 2 {
+		if i >= 5 && time.Since(d.t) > time.Hour {
 			os.RemoveAll(filepath.Join(root, d.name))
 		}
 	}
@@ -235,6 +237,10 @@ func runWorkers(bin string, prop, tier string, seed int64, n int, deadline int, 
 			err := cmd.Run()
 			if ctx.Err() != nil {
 				problems[i] = "watchdog"
+				return
+			}
+			if _, notStarted := err.(*exec.Error); notStarted || (err != nil && cmd.ProcessState == nil) {
+				problems[i] = "infra: cannot start worker: " + err.Error()
 				return
 			}
 			if err != nil {
@@ -471,6 +477,10 @@ func check(args []string) int {
 	agg := newAgg(prop)
 	for i, r := range res {
 		if r == nil {
+			if strings.HasPrefix(probs[i], "infra:") {
+				fmt.Fprintf(os.Stderr, "infrastructure error (not a verdict): %s\n", probs[i])
+				return 2
+			}
 			if probs[i] == "watchdog" {
 				agg.caps = append(agg.caps, fmt.Sprintf("shard %d stopped by the watchdog", i))
 				agg.exhaustive = false
@@ -514,6 +524,10 @@ func check(args []string) int {
 		pagg := newAgg(prop)
 		for i, r := range pres {
 			if r == nil {
+				if strings.HasPrefix(pprobs[i], "infra:") {
+					fmt.Fprintf(os.Stderr, "infrastructure error (not a verdict): %s\n", pprobs[i])
+					return 2
+				}
 				plainNote += fmt.Sprintf("plain shard %d: %s; ", i, firstLine(pprobs[i]))
 				if pprobs[i] != "watchdog" {
 					agg.viol = append(agg.viol, proto.Violation{Property: prop, Clause: "process-death", Kind: "process-death",
